@@ -411,6 +411,10 @@ class VectorDot(Expr):  # type: ignore[misc]
     frame is reversed.
     """
 
+    # NOTE: only real-valued vectors are supported, see above
+    is_real = True
+    is_commutative = True
+
     @property
     def lhs(self) -> VectorExpr:
         return self.args[0]  # type: ignore[no-any-return]
